@@ -1266,6 +1266,7 @@ class ContactHandler(Messenger, dbus.service.Object):
                 item.total_length or 0,
                 'session terminating'
             )
+            self._tx_map.pop(item.transfer_id, None)
 
     def recv_xfer_data(self, transfer_id, flags, data, ext_items):
         Messenger.recv_xfer_data(self, transfer_id, flags, data, ext_items)
